@@ -239,6 +239,228 @@ theorem variant_realises (e : EnumDef) (v : Variant) (s : Sch) (h : Macro.varian
               simp only [hun', Bool.false_eq_true, if_false] at h
               exact ⟨.adjacent t tag c, rfl, by simp [Serde.wire, hsn, hu', ht, hcn, hun'], by simp [Realises, ← h, Macro.tagSch]⟩
 
+/-! ### values: every struct value serde serializes validates against the derived schema -/
+
+theorem lookup_none_of_not_mem (k : Str) (kvs : List (Str × J)) (h : k ∉ kvs.map (·.1)) : lookup k kvs = none := by
+  induction kvs with
+  | nil => rfl
+  | cons p rest ih =>
+    simp only [List.map_cons, List.mem_cons, not_or] at h
+    simp [lookup, Ne.symm h.1, ih h.2]
+
+/-- every key written is the serialize name of a written field -/
+theorem ser_keys_sub (ra : Option Rule) (cd : Bool) (fvs : List (Field × FieldVal)) (kvs : List (Str × J)) (ks : List (Str × Bool))
+    (hnf : ∀ p ∈ fvs, p.1.flatten = false)
+    (hs : Serde.ser ra fvs = some kvs) (hk : Serde.keys ra cd (fvs.map (·.1)) = some ks) : ∀ k ∈ kvs.map (·.1), k ∈ ks.map (·.1) := by
+  induction fvs generalizing kvs ks with
+  | nil => simp [Serde.ser] at hs; subst hs; simp
+  | cons p rest ih =>
+    obtain ⟨f, v⟩ := p
+    have hnf' : ∀ p ∈ rest, p.1.flatten = false := fun p hp => hnf p (List.mem_cons_of_mem _ hp)
+    have hff : f.flatten = false := hnf (f, v) (List.mem_cons_self ..)
+    unfold Serde.ser at hs
+    by_cases hw : Serde.written f = true
+    · simp only [hw, Bool.not_true, Bool.false_eq_true, if_false] at hs
+      simp only [Serde.keys, List.map_cons, List.filter, hw, hff, Bool.not_false, Bool.and_self] at hk
+      cases hn : Serde.name Serde.applyField ra f.ident f.rename with
+      | none => simp [hn] at hs
+      | some n =>
+        cases hr : Serde.ser ra rest with
+        | none => simp [hn, hr] at hs
+        | some kvs' =>
+          simp only [Macro.allM, hn, Option.map_some] at hk
+          cases hk' : Macro.allM (fun f => (Serde.name Serde.applyField ra f.ident f.rename).map fun n => (n, !Serde.lenient cd f))
+              ((rest.map (·.1)).filter fun f => Serde.written f && !f.flatten) with
+          | none => simp [hk'] at hk
+          | some ks' =>
+            simp only [hk', Option.map_some, Option.some.injEq] at hk
+            subst hk
+            have ih' := ih kvs' ks' hnf' hr (by simpa [Serde.keys] using hk')
+            simp only [hn, hr] at hs
+            intro k hkm
+            cases v with
+            | omitted => simp only [Option.some.injEq] at hs; subst hs; exact List.mem_cons_of_mem _ (ih' k hkm)
+            | null =>
+              simp only [Option.some.injEq] at hs; subst hs
+              simp only [List.map_cons, List.mem_cons] at hkm ⊢
+              rcases hkm with rfl | hkm
+              · left; rfl
+              · right; exact ih' k hkm
+            | val j =>
+              simp only [Option.some.injEq] at hs; subst hs
+              simp only [List.map_cons, List.mem_cons] at hkm ⊢
+              rcases hkm with rfl | hkm
+              · left; rfl
+              · right; exact ih' k hkm
+    · have hw' : Serde.written f = false := by simpa using hw
+      simp only [hw', Bool.not_false, if_true] at hs
+      have : Serde.keys ra cd ((f :: rest.map (·.1))) = Serde.keys ra cd (rest.map (·.1)) := by simp [Serde.keys, List.filter, hw']
+      rw [List.map_cons, this] at hk
+      exact ih kvs ks hnf' hs hk
+
+/-- **the value of every written field sits under its serialize name**, and nothing sits under the name of an omitted one -/
+theorem ser_lookup (ra : Option Rule) (cd : Bool) (fvs : List (Field × FieldVal)) (kvs : List (Str × J)) (ks : List (Str × Bool))
+    (hnf : ∀ p ∈ fvs, p.1.flatten = false)
+    (hs : Serde.ser ra fvs = some kvs) (hk : Serde.keys ra cd (fvs.map (·.1)) = some ks) (hd : (ks.map (·.1)).Nodup) :
+    ∀ p ∈ fvs, Serde.written p.1 = true → ∀ n, Serde.name Serde.applyField ra p.1.ident p.1.rename = some n → lookup n kvs = expect p.2 := by
+  induction fvs generalizing kvs ks with
+  | nil => intro p hp; cases hp
+  | cons q rest ih =>
+    obtain ⟨f, v⟩ := q
+    have hnf' : ∀ p ∈ rest, p.1.flatten = false := fun p hp => hnf p (List.mem_cons_of_mem _ hp)
+    have hff : f.flatten = false := hnf (f, v) (List.mem_cons_self ..)
+    unfold Serde.ser at hs
+    by_cases hw : Serde.written f = true
+    · simp only [hw, Bool.not_true, Bool.false_eq_true, if_false] at hs
+      simp only [Serde.keys, List.map_cons, List.filter, hw, hff, Bool.not_false, Bool.and_self] at hk
+      cases hn : Serde.name Serde.applyField ra f.ident f.rename with
+      | none => simp [hn] at hs
+      | some n0 =>
+        cases hr : Serde.ser ra rest with
+        | none => simp [hn, hr] at hs
+        | some kvs' =>
+          simp only [Macro.allM, hn, Option.map_some] at hk
+          cases hk' : Macro.allM (fun f => (Serde.name Serde.applyField ra f.ident f.rename).map fun n => (n, !Serde.lenient cd f))
+              ((rest.map (·.1)).filter fun f => Serde.written f && !f.flatten) with
+          | none => simp [hk'] at hk
+          | some ks' =>
+            simp only [hk', Option.map_some, Option.some.injEq] at hk
+            subst hk
+            have hkeys' : Serde.keys ra cd (rest.map (·.1)) = some ks' := by simpa [Serde.keys] using hk'
+            simp only [List.map_cons, List.nodup_cons] at hd
+            have hsub := ser_keys_sub ra cd rest kvs' ks' hnf' hr hkeys'
+            have hn0 : n0 ∉ kvs'.map (·.1) := fun hm => hd.1 (hsub n0 hm)
+            have ih' := ih kvs' ks' hnf' hr hkeys' hd.2
+            simp only [hn, hr] at hs
+            intro p hp hpw n hpn
+            rcases List.mem_cons.mp hp with rfl | hp
+            · -- the head field itself
+              simp only [hn, Option.some.injEq] at hpn; subst hpn
+              cases v with
+              | omitted => simp only [Option.some.injEq] at hs; subst hs; simpa [expect] using lookup_none_of_not_mem _ _ hn0
+              | null => simp only [Option.some.injEq] at hs; subst hs; simp [lookup, expect]
+              | val j => simp only [Option.some.injEq] at hs; subst hs; simp [lookup, expect]
+            · -- a later field: its name differs from the head's
+              have hne : n0 ≠ n := by
+                intro he; subst he
+                have : n0 ∈ ks'.map (·.1) := by
+                  have hmem : p.1 ∈ (rest.map (·.1)).filter fun f => Serde.written f && !f.flatten := by
+                    simp only [List.mem_filter, List.mem_map]
+                    exact ⟨⟨p, hp, rfl⟩, by simp [hpw, hnf' p hp]⟩
+                  -- every element of the filtered list contributes its name to ks'
+                  have key : ∀ (l : List Field) (out : List (Str × Bool)),
+                      Macro.allM (fun f => (Serde.name Serde.applyField ra f.ident f.rename).map fun n => (n, !Serde.lenient cd f)) l = some out →
+                      ∀ g ∈ l, ∀ m, Serde.name Serde.applyField ra g.ident g.rename = some m → m ∈ out.map (·.1) := by
+                    intro l
+                    induction l with
+                    | nil => intro out _ g hg; cases hg
+                    | cons a as iha =>
+                      intro out ho g hg m hm
+                      simp only [Macro.allM] at ho
+                      cases ha : Serde.name Serde.applyField ra a.ident a.rename with
+                      | none => simp [ha] at ho
+                      | some na =>
+                        simp only [ha, Option.map_some] at ho
+                        cases hrest : Macro.allM (fun f => (Serde.name Serde.applyField ra f.ident f.rename).map fun n => (n, !Serde.lenient cd f)) as with
+                        | none => simp [hrest] at ho
+                        | some o' =>
+                          simp only [hrest, Option.map_some, Option.some.injEq] at ho
+                          subst ho
+                          rcases List.mem_cons.mp hg with rfl | hg
+                          · simp only [ha, Option.some.injEq] at hm; subst hm; simp
+                          · simp only [List.map_cons, List.mem_cons]; right; exact iha o' hrest g hg m hm
+                  exact key _ _ hk' p.1 hmem n0 hpn
+                exact hd.1 this
+              have := ih' p hp hpw n hpn
+              cases v with
+              | omitted => simp only [Option.some.injEq] at hs; subst hs; exact this
+              | null => simp only [Option.some.injEq] at hs; subst hs; simp [lookup, hne, this]
+              | val j => simp only [Option.some.injEq] at hs; subst hs; simp [lookup, hne, this]
+    · have hw' : Serde.written f = false := by simpa using hw
+      simp only [hw', Bool.not_false, if_true] at hs
+      have : Serde.keys ra cd ((f :: rest.map (·.1))) = Serde.keys ra cd (rest.map (·.1)) := by simp [Serde.keys, List.filter, hw']
+      rw [List.map_cons, this] at hk
+      intro p hp hpw n hpn
+      rcases List.mem_cons.mp hp with rfl | hp
+      · simp [hw'] at hpw
+      · exact ih kvs ks hnf' hs hk hd p hp hpw n hpn
+
+
+theorem allM_mem {α β} (f : α → Option β) (l : List α) (out : List β) (h : Macro.allM f l = some out) : ∀ b ∈ out, ∃ a ∈ l, f a = some b := by
+  induction l generalizing out with
+  | nil => simp [Macro.allM] at h; subst h; intro b hb; cases hb
+  | cons a as ih =>
+    simp only [Macro.allM] at h
+    cases ha : f a with
+    | none => simp [ha] at h
+    | some b0 =>
+      simp only [ha] at h
+      cases hr : Macro.allM f as with
+      | none => simp [hr] at h
+      | some o' =>
+        simp only [hr, Option.map_some, Option.some.injEq] at h
+        subst h
+        intro b hb
+        rcases List.mem_cons.mp hb with rfl | hb
+        · exact ⟨a, List.mem_cons_self .., ha⟩
+        · obtain ⟨a', ha', hfa⟩ := ih o' hr b hb
+          exact ⟨a', List.mem_cons_of_mem _ ha', hfa⟩
+
+/-- **Every struct value serde serializes validates against the derived schema** (named fields, no flatten; excluded: an `Option`
+that is `None` and written as `null` — the recorded finding KF-C16-option-null).  Whatever object schema the derive builds, and whatever
+key/value pairs the derived `Serialize` writes for field values that fit their own types' schemas: every property that is present
+holds a value its schema accepts, and every property that is absent is not required. -/
+theorem struct_value_validates (leafOK : Field → J → Bool) (ra : Option Rule) (cd : Bool) (fvs : List (Field × FieldVal)) (s : Sch) (kvs : List (Str × J))
+    (hnf : ∀ p ∈ fvs, p.1.flatten = false)
+    (hm : Macro.schemaOfFields ra cd (.named (fvs.map (·.1))) = some s)
+    (hs : Serde.ser ra fvs = some kvs)
+    (hadm : ∀ p ∈ fvs, Serde.written p.1 = true → Serde.admissible leafOK p.1 p.2 = true)
+    (hd : ∀ ks, Serde.keys ra cd (fvs.map (·.1)) = some ks → (ks.map (·.1)).Nodup) :
+    ∃ props, s = .obj props [] ∧ validatesObj (propOK leafOK ra fvs) (readProps props) kvs = true := by
+  have hw : ∀ f ∈ fvs.map (·.1), ¬ (f.flatten = true ∧ f.withFn = true) := by
+    intro f hf
+    obtain ⟨p, hp, rfl⟩ := List.mem_map.mp hf
+    simp [hnf p hp]
+  obtain ⟨props, flat, rfl, hk, hfl⟩ := struct_keys_exact ra cd (fvs.map (·.1)) s hw hm
+  have hflat : flat = [] := by
+    rw [hfl]
+    have : (fvs.map (·.1)).filter (fun f => Serde.written f && f.flatten) = [] := by
+      apply List.filter_eq_nil_iff.mpr
+      intro f hf
+      obtain ⟨p, hp, rfl⟩ := List.mem_map.mp hf
+      simp [hnf p hp]
+    simp [this]
+  subst hflat
+  refine ⟨props, rfl, ?_⟩
+  have hnd := hd _ hk
+  have hl := ser_lookup ra cd fvs kvs (readProps props) hnf hs hk hnd
+  simp only [validatesObj, List.all_eq_true]
+  intro pr hpr
+  -- the property comes from a written field
+  simp only [Serde.keys] at hk
+  obtain ⟨f, hf, hfe⟩ := allM_mem _ _ _ hk pr hpr
+  simp only [List.mem_filter, List.mem_map] at hf
+  obtain ⟨⟨p, hp, rfl⟩, hwf⟩ := hf
+  have hwr : Serde.written p.1 = true := by
+    cases hh : Serde.written p.1 <;> simp [hh] at hwf ⊢
+  cases hn : Serde.name Serde.applyField ra p.1.ident p.1.rename with
+  | none => simp [hn] at hfe
+  | some n =>
+    simp only [hn, Option.map_some, Option.some.injEq] at hfe
+    subst hfe
+    have hlk := hl p hp hwr n hn
+    have hav := hadm p hp hwr
+    simp only [hlk]
+    cases hv : p.2 with
+    | omitted =>
+      simp only [hv, Serde.admissible] at hav
+      simp [expect, Serde.lenient, hav]
+    | null => simp [hv, Serde.admissible] at hav
+    | val j =>
+      simp only [hv, Serde.admissible] at hav
+      simp only [expect, propOK, List.any_eq_true]
+      exact ⟨p, hp, by simp [hwr, hn, hav]⟩
+
 /-! ### non-vacuity: concrete definitions that meet the hypotheses -/
 
 private def f1 : Field := { ident := ['u','s','e','r','_','n','a','m','e'], ty := "String", inner := "String" }
@@ -251,5 +473,14 @@ example : Macro.schemaOfFields (some .kebab) false (.named [f1, f2, f3, f4]) =
 example : Serde.keys (some .kebab) false [f1, f2, f3, f4] = some [(['u','s','e','r','-','n','a','m','e'], true), (['t','y','p','e'], false), (['X','-','1'], false)] := by decide
 example : Macro.applyVariant .snake ['H','T','T','P','S','e','r','v','e','r'] = some ['h','_','t','_','t','_','p','_','s','e','r','v','e','r'] := by decide
 example : Macro.applyField .camel ['_','_'] = none ∧ Serde.applyField .camel ['_','_'] = none := by decide
+private def f2s : Field := { ident := ['n','i','c','k'], option := true, skipIf := true, ty := "Option<u8>", inner := "u8" }
+private def fvs1 : List (Field × FieldVal) := [(f1, .val (.leaf 0)), (f2s, .omitted), (f3, .val (.leaf 1)), (f4, .val .null)]
+-- the hypotheses of struct_value_validates are met by a four-field struct with an omitted Option and a skipped field, and its conclusion computes to true
+example : Serde.ser (some .kebab) fvs1 = some [(['u','s','e','r','-','n','a','m','e'], .leaf 0), (['X','-','1'], .leaf 1)] := by rfl
+example : (∀ p ∈ fvs1, Serde.written p.1 = true → Serde.admissible (fun _ _ => true) p.1 p.2 = true) := by
+  intro p hp; simp [fvs1] at hp; rcases hp with rfl | rfl | rfl | rfl <;> simp [Serde.admissible, Serde.written, f1, f2s, f3, f4]
+example : validatesObj (propOK (fun _ _ => true) (some .kebab) fvs1)
+    [(['u','s','e','r','-','n','a','m','e'], true), (['n','i','c','k'], false), (['X','-','1'], false)]
+    [(['u','s','e','r','-','n','a','m','e'], .leaf 0), (['X','-','1'], .leaf 1)] = true := by decide
 
 end Ohkami.Derive.C16
